@@ -47,6 +47,7 @@ func parseStyleDecls(s string) map[string]string {
 
 func c14Eval(cs c14Case) *Case {
 	res := renderPage(map[string]string{"page.vuego": cs.tpl}, "page.vuego", cs.data)
+	pendingPages = append(pendingPages, pageCase("attrs", map[string]string{"page.vuego": cs.tpl}, nil, "page.vuego", cs.data))
 	c := &Case{Name: cs.desc, Input: map[string]any{"desc": cs.desc, "tpl": cs.tpl, "data": toVal(cs.data)}, Impl: res.canon(), Key: cs.desc + "|" + cs.tpl, Tags: []string{"c14:" + strings.SplitN(cs.desc, ":", 2)[0]}}
 	v := &Verdict{OK: true}
 	c.Oracle = v
@@ -219,6 +220,7 @@ func c14Cases() []c14Case {
 }
 
 func runC14(r *Run, replay *Case) {
+	defer flushPages(r)
 	if replay != nil {
 		if replay.Input["op"] != nil {
 			return
